@@ -6,7 +6,7 @@ import DEvo.Opt.Optimize
 import DEvo.Sql.Merge
 import DEvo.Sql.Rebuild
 import DEvo.Sql.Schema
-import DEvo.Ser.Py
+import DEvo.Ser.PyRoundTrip
 import DEvo.Run.Tx
 import DEvo.Run.History
 import DEvo.Run.Migrations
@@ -126,8 +126,9 @@ def handle (j : Json) : Except String Json := do
     let eerr := fun (e : Ser.EErr) => match e with
       | .syntaxError => "SyntaxError" | .nameError _ => "NameError" | .attributeError _ => "AttributeError"
       | .notImplemented _ => "NotImplementedError" | .typeError _ => "TypeError"
+    let good := toJson (Ser.Good v)
     match Ser.toPy table v with
-    | .error e => pure (Json.mkObj [("render", perr e)])
+    | .error e => pure (Json.mkObj [("render", perr e), ("good", good)])
     | .ok p0 =>
       let p := (Ser.cutComment p0).1
       let ok := Ser.syntaxOk p
@@ -136,7 +137,7 @@ def handle (j : Json) : Except String Json := do
         else match Ser.evalPy table.keepSubmodules tree with
           | .error e => Json.mkObj [("err", eerr e)]
           | .ok v' => Json.mkObj [("value", Codec.vJ v')]
-      pure (Json.mkObj [("render", Json.mkObj [("tree", Codec.pyJ p)]), ("syntax_ok", toJson ok),
+      pure (Json.mkObj [("good", good), ("render", Json.mkObj [("tree", Codec.pyJ p)]), ("syntax_ok", toJson ok),
         ("parsed", Codec.pyJ tree), ("result", res)])
   | "variant" =>
     pure (Json.mkObj [("commit_on_failure", toJson Run.commitOnFailure),
